@@ -21,6 +21,7 @@ A case is {"ops": [...]}:
 A *calls* case is {"calls": [...]}: direct use of the classes in the builder's discipline
   ["house", name] (created and made current) ["assign", k] ["framer", name] ["frame", name] ["tasker", name]
   ["log", name] ["clone", k, name]   (Framer.clone of the k-th framer made so far, whatever house is current)
+  ["prune", k]                       (Framer.prune of the k-th framer made so far, whatever house is current)
 run under the same event recording as a program case.
 
 A *program* case is {"script": [FloScript lines]}: the script is built AND RUN (at most 32 ticks) with the real
@@ -330,16 +331,28 @@ class TraceImpl(Impl):
                 me.unmodelled = "Clear on " + cls.__name__
             else:
                 me.pending = (["clear", k], [], None)
+                me.flush()
 
         def traced_assign(house):
             me.flush()
             orig_assign(house)
             me.pending = (["assignRegistries", me.houses.index(house) if house in me.houses else 999], [], None)
+            me.flush()
 
         def traced_fassign(framer):
             me.flush()
             orig_fassign(framer)
             me.pending = (["assignFrameRegistry", me.framers.index(framer) if framer in me.framers else 999], [], None)
+            me.flush()
+
+        orig_prune = framing.Framer.prune
+
+        def traced_prune(framer):
+            me.flush()                  # whatever is pending is snapshotted before anything is removed
+            orig_prune(framer)          # nested prunes and the assignRegistries of D47a are events of their own
+            me.flush()
+            me.pending = (["prune", me.framers.index(framer) if framer in me.framers else 999], [], None)
+            me.flush()
 
         from ioflo.base import skedding, storing
         orig_change = storing.Store.changeStamp
@@ -354,6 +367,7 @@ class TraceImpl(Impl):
         registering.Registrar.Clear = classmethod(traced_clear)
         housing.House.assignRegistries = traced_assign
         framing.Framer.assignFrameRegistry = traced_fassign
+        framing.Framer.prune = traced_prune
         storing.Store.changeStamp = bounded_change
         try:
             try:
@@ -366,6 +380,7 @@ class TraceImpl(Impl):
             registering.Registrar.Clear = orig_clear
             housing.House.assignRegistries = orig_assign
             framing.Framer.assignFrameRegistry = orig_fassign
+            framing.Framer.prune = orig_prune
             storing.Store.changeStamp = orig_change
             registering.random = self.saved_random
         if self.unmodelled:
@@ -430,6 +445,11 @@ class TraceImpl(Impl):
                         tasking.Tasker(name=c[1], store=st["house"].store)
                     elif c[0] == "log":
                         logging.Log(name=c[1], store=st["house"].store)
+                    elif c[0] == "prune":
+                        if c[1] < len(st["framers"]):
+                            f = st["framers"][c[1]]
+                            st["house"], st["framer"] = f.store.house, None      # prune makes its own house current
+                            f.prune()
                     elif c[0] == "clone":
                         if c[1] < len(st["framers"]):
                             orig = st["framers"][c[1]]
@@ -474,15 +494,16 @@ class CHECK(core.Check):
                "Registrar.Clear, House.assignRegistries and Framer.assignFrameRegistry inside the harness process "
                "(nothing in /repo is edited); the recorded events are the model's input, its predictions are compared "
                "after each event"]
-    PARTIAL = ["not modelled and not generated: Framer.prune / `raze` (removes a clone from the CURRENT Framer.Names), Clear() called on a subclass by hand is "
+    PARTIAL = ["not modelled: the non-registry parts of Framer.prune (exitAll, aux bookkeeping); Clear() called on a subclass by hand is "
                "modelled but not generated, Monitor/Server taskers, Registrar subclasses outside ioflo.base, "
                "non-string names (ParameterError), building a FloScript (names come from the script)"]
     TECHNIQUE = ("Lean 4 theorems (invariant over all histories; induction over the letter supply) + differential "
                  "correspondence after every step")
     LEVEL_TEXT = ("Full proof on the model for every history of creations, clears and namespace switches: every registry "
                   "dict is a map with one instance per name and every instance ever registered is still found under its "
-                  "own name in the dict it registered in and in no other (C47_names_injective, C47_registered_stays, "
-                  "C47_one_namespace_per_instance), an explicit "
+                  "own name in the dict it registered in until it is pruned and in no other (C47_names_injective, C47_registered_stays, "
+                  "C47_one_namespace_per_instance), a pruned (razed) framer frees its name in its own namespace and only there "
+                  "(C47_prune_frees_own_name, C47_prune_elsewhere_noop), an explicit "
                   "duplicate is rejected and no dict changes (C47_duplicate_rejected), the automatic-name loop ends for "
                   "EVERY sequence of random letters within maxLen(Names)+1-len(start) letters on a name not in Names "
                   "(C47_autoname_terminates_fresh, C47_auto_never_rejected), a creation touches only the dict current "
@@ -509,7 +530,7 @@ class CHECK(core.Check):
         """a FloScript program with 1-3 houses, each with active framers whose frames step on every tick and end
         in `bid stop all`, moot framers cloned at BUILD time (`aux … as tag/mine`, also from other moots; the clone
         graph is acyclic) and at RUN time (`rear … in frame …`, executed while the LAST built house's namespace is
-        the current one), inactive loggers with logs; in a quarter of the programs one duplicate name is planted
+        the current one; `raze … in frame …` prunes reared clones again), inactive loggers with logs; in a quarter of the programs one duplicate name is planted
         (house, framer, frame, log, a framer named like a build-time clone or like a run-time clone)"""
         L = []
         fault = rng.choice(["house", "framer", "frame", "log", "clonename", "rearname"]) if rng.random() < 0.25 else None
@@ -525,11 +546,12 @@ class CHECK(core.Check):
             tags = iter("c%d" % i for i in range(100))
             planted, reared = [], []
             for fi, f in enumerate(mains):
-                frames = rng.sample(["start", "run", "fin", "A", "B", "wait"], rng.choice([2, 3, 4]))
+                frames = rng.sample(["start", "run", "fin", "A", "B", "wait"], rng.choice([2, 3, 4, 5]))
                 if fault == "frame" and rng.random() < 0.6:
                     frames.append(frames[0])
                 L.append("framer %s be %s first %s" % (f, "active" if fi == 0 else rng.choice(["active", "inactive"]),
                                                        frames[0]))
+                targets = []
                 for j, fr in enumerate(frames):
                     L.append("  frame " + fr)
                     L.append("    print " + fr)
@@ -541,10 +563,16 @@ class CHECK(core.Check):
                             planted.append("%s_%s" % (f, tg))
                         else:
                             L.append("    aux %s as mine" % m)
-                    if moots and j + 1 < len(frames) and rng.random() < 0.5:
+                    if targets and rng.random() < 0.5:
+                        # raze what an earlier frame reared (the clone is pruned: it takes its name out of the
+                        # registry); a later rear of the same moot asks for the same name again
+                        L.append("    raze %s in frame %s" % (rng.choice(["all", "last", "first"]), rng.choice(targets)))
+                    if moots and j + 1 < len(frames) and rng.random() < 0.6:
                         m = rng.choice(moots)
                         others = [x for x in frames if x != fr]
-                        L.append("    rear %s in frame %s" % (m, rng.choice(others)))
+                        tgt = rng.choice(others)
+                        L.append("    rear %s in frame %s" % (m, tgt))
+                        targets.append(tgt)
                         reared.append("%s_%s1" % (f, m))
                     if j + 1 < len(frames):
                         L.append("    go next")
@@ -601,6 +629,8 @@ class CHECK(core.Check):
             elif r < 0.75:
                 k = rng.randrange(len(per_house))
                 calls.append(["assign", k]); cur = k
+            elif owner and r < 0.82:
+                calls.append(["prune", rng.randrange(len(owner))])
             elif owner:
                 k = rng.randrange(len(owner))
                 own = per_house[owner[k]]
@@ -699,7 +729,7 @@ class CHECK(core.Check):
                 reqs.append("newHouse %s %s" % (hx(op[1]), op[2] or "-"))
             elif k == "clear":
                 reqs.append("clear %s" % op[1])
-            elif k in ("assignRegistries", "assignFrameRegistry"):
+            elif k in ("assignRegistries", "assignFrameRegistry", "prune"):
                 reqs.append("%s %d" % (k, op[1]))
             else:
                 reqs.append(k)
@@ -764,6 +794,8 @@ class CHECK(core.Check):
         binds["framer"] = binds["logger"] = binds["tasker"]
         dicts = {str(i): {} for i in range(5)}
         seen_insts = set()
+        framer_insts = []     # per registered framer (in order): its instance label
+        registered = {}       # instance label -> (registry label, name) where it registered
         house_dicts = []      # per registered house: the labels of its own store/tasker/log registries
         framer_dict = []      # per registered framer: the label of its own frame registry
         case = {"ops": ops}
@@ -777,11 +809,23 @@ class CHECK(core.Check):
                 return where + "unexpected exception"
             if res.startswith("HARNESS") or res == "NEED-LETTERS":
                 return where + "harness could not drive the operation"
-            # registries only grow, entry by entry; every entry's instance is named by its key
+            # registries only grow, entry by entry — except that a pruned (razed) framer takes itself out of the
+            # registry it registered in, i.e. its own house's: afterwards its name is free there, and only there
+            gone = None
+            if op[0] == "prune" and op[1] < len(framer_insts):
+                inst = framer_insts[op[1]]
+                lab0, kk0 = registered.get(inst, (None, None))
+                if lab0 is not None and dicts.get(lab0, {}).get(kk0) == inst:
+                    gone = (lab0, kk0)
+                    if d2.get(lab0, {}).get(kk0) == inst:
+                        return where + "the razed framer %r is still registered in its own house's registry %s" % (
+                            unhx(kk0), lab0)
             for lab, m in dicts.items():
                 if lab not in d2:
                     return where + "registry dict %s vanished" % lab
                 for kk, v in m.items():
+                    if (lab, kk) == gone:
+                        continue
                     if d2[lab].get(kk) != v:
                         return where + "entry %s of registry %s was lost or now names another instance" % (unhx(kk), lab)
             for lab, m in d2.items():
@@ -858,8 +902,11 @@ class CHECK(core.Check):
                 extra = [x for x in added if x not in expect_added][:3]
                 return where + "registries changed beyond the creation's own entry: %s" % (
                     "; ".join("%s[%s]=%s" % (lab, unhx(kk), v) for lab, kk, v in extra) or "entry missing")
-            for (_, _, v) in added:
+            for (lab, kk, v) in added:
                 seen_insts.add(v)
+                registered[v] = (lab, kk)
+            if k == "new" and op[1] == "framer" and res.startswith("NAME "):
+                framer_insts.append(res.split(" ")[2])
             # bindings
             want = dict(binds)
             if k == "clear":
